@@ -171,7 +171,12 @@ class SessionSim(Sim):
 
         def allowed(owner_spec):
             if default:
-                return set(x for x in m.family(owner_spec) if x in m.installed)
+                # the whole extension family: the root base lexicon with all its (transitive)
+                # extensions.  A single relation step is narrower in the code (own lexicon,
+                # its bases, its extensions), but multi-step traversals (closure, paths) may
+                # legitimately pass through the base into a sibling extension.
+                root = (m.bases_of(owner_spec) or [owner_spec])[-1]
+                return set(x for x in [root] + m.extensions_of(root) if x in m.installed)
             return S
 
         def chk(e, origin, via, home=None):
